@@ -28,6 +28,7 @@ import (
 
 	"github.com/IrineSistiana/mosdns/v5/pkg/dnsutils"
 	"github.com/IrineSistiana/mosdns/v5/pkg/pool"
+	"github.com/IrineSistiana/mosdns/v5/pkg/verifhook"
 	"go.uber.org/zap"
 )
 
@@ -257,6 +258,7 @@ func (c *reusableConn) readLoop() {
 			return
 		}
 
+		verifhook.PointArg("reuse.readloop.read", c.c)
 		c.m.Lock()
 		respChan := c.waitingResp
 		c.waitingResp = nil
@@ -273,6 +275,7 @@ func (c *reusableConn) readLoop() {
 		// Note: calling setIdle before sending resp back to make sure this connection is idle
 		// before Exchange call returning. Otherwise, Test_ReuseConnTransport may fail.
 		c.t.setIdle(c)
+		verifhook.PointArg("reuse.readloop.idle", c.c)
 
 		select {
 		case respChan <- resp:
@@ -329,6 +332,7 @@ func (c *reusableConn) exchange(ctx context.Context, q *[]byte) (*[]byte, error)
 		c.closeWithErr(err)
 		return nil, err
 	}
+	verifhook.PointArg("reuse.exchange.written", c.c)
 
 	select {
 	case resp := <-respChan:
